@@ -22,16 +22,17 @@ func registerC01() {
 			"(header, file_id, the one-field definition, one matching data record; two more data patterns, all-0xFF and NUL-rich, if the definition was accepted) is decoded under " +
 			"a panic/hang guard; every rejected definition with a known base type is retried on a slot that already holds the same field definition for an unknown message; every 61st stream also goes through all six entry points with 1-byte and greedy chunkers. Family mutants: PRNG structured mutations (bit/byte flips, " +
 			"splices, truncation, extension, header edits, definition edits, record-header edits, size lies; CRC recomputed for half) of device files and model streams, each fed to the six " +
-			"entry points under three chunkers. Family sizes: valid and mutated small files whose header data-size field is set to boundary values (0, 1, the true size +-k, 2^31-1, 2^31, 2^32-1, ...) with and without matching CRCs, through the six entry points. The mutants, multidefs and sizes families are run a second time in a GOARCH=386 binary (32-bit int) when the host can execute it. Family multidefs: PRNG streams of 1-4 definitions with 1-8 ARBITRARY field definitions each (any field number, size, base byte; " +
+			"entry points under three chunkers. Family monsters: well-formed streams whose definitions have up to 255 fields and 255 developer fields of up to 255 bytes, half of them with a total record size placed at a 16-bit boundary (65535, 65536, 65537, 64 KiB +- 300, 128 KiB - 1100...), under whole-buffer and short-read chunkers. Family sizes: valid and mutated small files whose header data-size field is set to boundary values (0, 1, the true size +-k, 2^31-1, 2^31, 2^32-1, ...) with and without matching CRCs, through the six entry points. The mutants, multidefs and sizes families are run a second time in a GOARCH=386 binary (32-bit int) when the host can execute it. Family multidefs: PRNG streams of 1-4 definitions with 1-8 ARBITRARY field definitions each (any field number, size, base byte; " +
 			"developer-field lists; known and unknown messages; occasionally an illegal arch byte) followed by data records of exactly the defined sizes (some behind compressed headers), " +
 			"framed with correct CRCs, decoded with and without options (formatting logger, unknown lists) under two chunkers. A case is one stream; in family fielddefs each is distinct by construction and counted non-trivial because it reaches the definition validator; " +
 			"mutants are distinct by digest",
 		Assume:        []string{"a hang is decided logically (more than 10000 reads after the input ended) or by the doubly-confirmed wall-clock watchdog"},
 		MinNontrivial: 1000000,
-		Families386:   []string{"mutants", "multidefs", "sizes"},
+		Families386:   []string{"mutants", "multidefs", "sizes", "monsters"},
 		Families: []lib.Family{
 			{Name: "fielddefs", N: func(t string) uint64 { return uint64(len(c01Pairs(t))) }, Run: c01FieldDefs},
 			{Name: "mutants", N: func(t string) uint64 { return tierN(t, 60000, 3000000) }, Run: c01Mutant},
+			{Name: "monsters", N: func(t string) uint64 { return tierN(t, 1500, 60000) }, Run: c01Monsters},
 			{Name: "sizes", N: func(t string) uint64 { return tierN(t, 4000, 100000) }, Run: c01Sizes},
 			{Name: "multidefs", N: func(t string) uint64 { return tierN(t, 150000, 5000000) }, Run: c01MultiDefs},
 		},
@@ -582,4 +583,50 @@ func sizeClass(ds, t uint32) string {
 	default:
 		return "too_small"
 	}
+}
+
+// c01Monsters: very large records.
+func c01Monsters(c *lib.Ctx, idx uint64) {
+	rng := lib.NewRand("C01.monsters", idx)
+	ft := lib.FileTypes[idx%uint64(len(lib.FileTypes))].Type
+	o := lib.GenOpts{FileType: ft, Records: 2 + rng.Intn(4), Locals: 1 + rng.Intn(3), Redefine: 30, BigEndian: 50, Unknown: 30, MaxFields: 3, Monster: 1200}
+	if rng.Chance(1, 2) {
+		o.Mesgs = lib.HostedMesgs(ft)
+	}
+	plan := lib.NewPlanGen(rng, o).Fill()
+	b := plan.Bytes()
+	c.SetInflight(b[:minInt(len(b), 60000)])
+	for _, ch := range []lib.Chunker{{Kind: "whole"}, {Kind: "rand", Size: 3000, R: rng}, {Kind: "fixed", Size: 255}} {
+		for _, ep := range []string{"Decode", "DecodeChained", "CheckIntegrity"} {
+			var res lib.CallResult
+			out := lib.Guard(func() { res = lib.Call(ep, lib.NewReader(b, ch)) })
+			c.Eval()
+			if out.Panicked || out.Hang {
+				c.Violation(b[:minInt(len(b), 60000)], "%s (%s reads) panicked/hung on a well-formed stream of %d bytes with very large records: %s\n%s", ep, ch, len(b), out.Panic, out.Stack)
+				return
+			}
+			_ = res
+		}
+	}
+	big := 0
+	for i := range plan.Records {
+		if !plan.Records[i].IsDef {
+			n := 0
+			for _, d := range plan.Records[i].Data {
+				n += len(d)
+			}
+			if n > big {
+				big = n
+			}
+		}
+	}
+	switch {
+	case big >= 65536:
+		c.Count("monster_record_64KiB_or_more", 1)
+	case big >= 65000:
+		c.Count("monster_record_just_below_64KiB", 1)
+	case big >= 10000:
+		c.Count("monster_record_10KB_or_more", 1)
+	}
+	c.Nontrivial(b[:minInt(len(b), 4096)], []byte(fmt.Sprint(len(b))))
 }
